@@ -198,7 +198,7 @@ func (T *Taint) class(v ssa.Value) pval {
 	case *ssa.Index:
 		return T.Class(x.X)
 	case *ssa.Lookup:
-		return T.Class(x.X)
+		return joinP(T.Class(x.X), T.classMapElems(x.X))
 	case *ssa.Field:
 		f, _ := fieldOf(x)
 		if why, ok := T.sources[f]; ok {
@@ -260,9 +260,39 @@ func (T *Taint) class(v ssa.Value) pval {
 	case *ssa.Next:
 		return T.Class(x.Iter)
 	case *ssa.Range:
-		return T.Class(x.X)
+		return joinP(T.Class(x.X), T.classMapElems(x.X))
 	}
 	return pval{}
+}
+
+// classMapElems: what was put into a map held in a struct field — every key and value stored by a MapUpdate on
+// a map loaded from that same field anywhere in the repository (field-based).
+func (T *Taint) classMapElems(m ssa.Value) pval {
+	f, ok := loadedField(stripConv(m))
+	if !ok {
+		return pval{}
+	}
+	if _, isMap := m.Type().Underlying().(*types.Map); !isMap {
+		return pval{}
+	}
+	var r pval
+	for _, fn := range T.P.Funcs {
+		if fn.Pkg != nil && fn.Pkg.Pkg.Path() == cmdPath {
+			continue
+		}
+		eachInstr(fn, func(ins ssa.Instruction) {
+			mu, ok := ins.(*ssa.MapUpdate)
+			if !ok {
+				return
+			}
+			if g, ok := loadedField(stripConv(mu.Map)); !ok || g != f {
+				return
+			}
+			r = joinP(r, T.via(T.Class(mu.Value), "stored in map "+f+" at "+T.P.ipos(mu)))
+			r = joinP(r, T.via(T.Class(mu.Key), "key of map "+f+" at "+T.P.ipos(mu)))
+		})
+	}
+	return r
 }
 
 // classLoad: value stored at an address.
